@@ -32,3 +32,46 @@ Print Assumptions C10_decrypt_encrypt.
 Print Assumptions C10_encrypt_decrypt.
 Print Assumptions C10_encrypt_injective.
 Print Assumptions C10_nonvacuous.
+
+(** audit C10-F1 (work package audit-followups): "bijection" stated literally - E and D map blocks to
+    blocks, are onto the blocks, and are mutually inverse on them *)
+From CC Require Proofs.FollowupsSmall.
+
+Theorem C10_encrypt_wellformed :
+  forall c nu key t0 t1 block,
+    is_tf_cfg c -> length block = (8 * n_w c)%nat ->
+    length (m_encrypt c nu key t0 t1 block) = (8 * n_w c)%nat /\ Forall is_byte (m_encrypt c nu key t0 t1 block).
+Proof. exact FollowupsSmall.F_C10.encrypt_wellformed. Qed.
+
+Theorem C10_decrypt_wellformed :
+  forall c nu key t0 t1 block,
+    is_tf_cfg c -> length block = (8 * n_w c)%nat ->
+    length (m_decrypt c nu key t0 t1 block) = (8 * n_w c)%nat /\ Forall is_byte (m_decrypt c nu key t0 t1 block).
+Proof. exact FollowupsSmall.F_C10.decrypt_wellformed. Qed.
+
+Theorem C10_encrypt_surjective :
+  forall c nu key t0 t1 b,
+    is_tf_cfg c -> length b = (8 * n_w c)%nat -> Forall is_byte b ->
+    exists a, length a = (8 * n_w c)%nat /\ Forall is_byte a /\ m_encrypt c nu key t0 t1 a = b.
+Proof. exact FollowupsSmall.F_C10.encrypt_surjective. Qed.
+
+Theorem C10_decrypt_surjective :
+  forall c nu key t0 t1 b,
+    is_tf_cfg c -> length b = (8 * n_w c)%nat -> Forall is_byte b ->
+    exists a, length a = (8 * n_w c)%nat /\ Forall is_byte a /\ m_decrypt c nu key t0 t1 a = b.
+Proof. exact FollowupsSmall.F_C10.decrypt_surjective. Qed.
+
+Theorem C10_bijection :
+  forall c nu key t0 t1, is_tf_cfg c ->
+    let blk b := length b = (8 * n_w c)%nat /\ Forall is_byte b in
+    (forall b, blk b -> blk (m_encrypt c nu key t0 t1 b)) /\
+    (forall b, blk b -> blk (m_decrypt c nu key t0 t1 b)) /\
+    (forall b, blk b -> m_decrypt c nu key t0 t1 (m_encrypt c nu key t0 t1 b) = b) /\
+    (forall b, blk b -> m_encrypt c nu key t0 t1 (m_decrypt c nu key t0 t1 b) = b).
+Proof. exact FollowupsSmall.F_C10.encrypt_bijection. Qed.
+
+Print Assumptions C10_encrypt_wellformed.
+Print Assumptions C10_decrypt_wellformed.
+Print Assumptions C10_encrypt_surjective.
+Print Assumptions C10_decrypt_surjective.
+Print Assumptions C10_bijection.
